@@ -73,6 +73,7 @@ type srvRun struct {
 	flOld    map[int]int
 	kind     map[int]string
 	released map[int]bool
+	uniform  bool
 }
 
 func (r *srvRun) log(e srvEvent) {
@@ -94,10 +95,19 @@ func (r *srvRun) doneSet() []int {
 	return d
 }
 
-// message for request id i: kinds rotate, every one carries the id in its fid field
-func srvMessage(i int) p9p.Message {
+// srvUniform: every request of the run is a Tstat (odd-numbered runs), so that a tag is reused by a
+// request of the same kind as its previous user; otherwise kinds rotate with the id.
+func srvKind(i int, uniform bool) int {
+	if uniform {
+		return 1
+	}
+	return i % 8
+}
+
+// message for request id i: every one carries the id in its fid field
+func srvMessage(i int, uniform bool) p9p.Message {
 	f := p9p.Fid(i)
-	switch i % 8 {
+	switch srvKind(i, uniform) {
 	case 1:
 		return p9p.MessageTstat{Fid: f}
 	case 2:
@@ -145,12 +155,12 @@ func srvIDOf(m p9p.Message) int {
 }
 
 // the result handler i returns: a reply of the matching type carrying i, or an error text for i%3==0
-func srvResult(i int) (p9p.Message, error) {
+func srvResult(i int, uniform bool) (p9p.Message, error) {
 	if i%3 == 0 {
 		return nil, fmt.Errorf("e%d", i)
 	}
 	q := p9p.Qid{Path: uint64(i), Version: 9}
-	switch i % 8 {
+	switch srvKind(i, uniform) {
 	case 1:
 		return p9p.MessageRstat{Stat: p9p.Dir{Name: fmt.Sprintf("r%d", i), Qid: q}}, nil
 	case 2:
@@ -215,11 +225,13 @@ func srvClassify(fc *p9p.Fcall) (kind string, src int) {
 
 // the reply must be exactly what handler i returned
 func srvCheck(i int, got p9p.Message) (string, int) {
-	want, err := srvResult(i)
-	if err != nil || i <= 0 || !reflect.DeepEqual(normMsg(want), normMsg(got)) {
-		return "other", i
+	for _, uniform := range []bool{false, true} {
+		want, err := srvResult(i, uniform)
+		if err == nil && i > 0 && reflect.DeepEqual(normMsg(want), normMsg(got)) {
+			return "res", i
+		}
 	}
-	return "res", i
+	return "other", i
 }
 
 func normMsg(m p9p.Message) p9p.Message {
@@ -261,7 +273,7 @@ func (h srvHandler) Handle(ctx context.Context, msg p9p.Message) (p9p.Message, e
 		case <-ctx.Done():
 		}
 	}
-	res, err := srvResult(id)
+	res, err := srvResult(id, r.uniform)
 	k := "res"
 	if err != nil {
 		k = "err"
@@ -300,6 +312,7 @@ func runSrvScenario(sc srvScenario, scn int, res *hx.Result) []srvEvent {
 		entered: map[int]bool{}, honour: map[int]bool{}, faultCh: make(chan struct{}),
 		cout: map[int]int{}, fl: map[int]int{}, flOld: map[int]int{}, kind: map[int]string{}, released: map[int]bool{}}
 	r.cond = sync.NewCond(&r.mu)
+	r.uniform = scn%2 == 1
 	cli, srv := gconn.Pair(0)
 	ctx, cancel := context.WithCancel(context.Background())
 	defer cancel()
@@ -430,7 +443,7 @@ func runSrvScenario(sc srvScenario, scn int, res *hx.Result) []srvEvent {
 			if st.Kind == "flush" {
 				msg = p9p.MessageTflush{Oldtag: p9p.Tag(st.Old)}
 			} else {
-				msg = srvMessage(st.I)
+				msg = srvMessage(st.I, r.uniform)
 			}
 			r.sent[st.I] = msg
 			r.kind[st.I] = st.Kind
